@@ -140,8 +140,9 @@ Proof. exact Serial_lemmas.C16_pool_serial. Qed.
 (* ---- 4. conservation ---- *)
 
 (* one operation: a submission either leaves the node as it was or appends its id to the pool
-   (the chain untouched; the id was not pooled); a production tick either leaves the node as it was
-   or appends one block whose ordinary transactions come from the pool and empties the pool, every
+   (the chain untouched; the id was not pooled); a production tick either leaves the node as it was,
+   or (a tick not after the tip, refused by AddBlock) leaves the chain state as it was and the pool
+   re-ordered, or appends one block whose ordinary transactions come from the pool and empties the pool, every
    pooled id being then in the block or in the dropped log, once; a read changes nothing *)
 Theorem C16_pool_conservation_step :
   forall (value_fn : N -> bool -> Z -> N) (addr_of : string -> string) (sig_ok : input -> bool)
@@ -155,6 +156,11 @@ Theorem C16_pool_conservation_step :
                   ~ In (t_id t) (pool_ids n))
     | PValidate ts perm =>
       (exists e, pool_sop value_fn addr_of sig_ok H gen_id St validator p n = (n, RVal (Refused e))) \/
+      (exists n', pool_sop value_fn addr_of sig_ok H gen_id St validator p n = (n', RVal (Refused ETime)) /\
+                  n_c n' = n_c n /\
+                  chain (n_c n) <> [] /\ (ts <= last_block_ts (chain (n_c n)))%Z /\
+                  (Permutation perm (seq 0 (length (elems (n_pool n)))) ->
+                   Permutation (pool_ids n) (pool_ids n'))) \/
       (exists n' d b,
           pool_sop value_fn addr_of sig_ok H gen_id St validator p n = (n', RVal (Produced d)) /\
           chain (n_c n') = chain (n_c n) ++ [b] /\ pool_ids n' = [] /\
